@@ -154,6 +154,10 @@ pub struct Case {
     pub offsets: u8,
     pub steps: Vec<Step>,
     pub mode: Mode,
+    /// default-format files are loaded with `load_snapshot_with_bloom_filter`
+    /// (the loaded store answers `get`/`exists` through a rebuilt Bloom filter)
+    #[serde(default)]
+    pub bloom_loader: bool,
 }
 
 pub struct C07;
@@ -972,6 +976,16 @@ impl<'a> Trial<'a> {
                         Err(e) => *v = str_data(STORE_GET_FAILS, format!("{e}")),
                     }
                 }
+                // cache-class keys are transient and not compared with the
+                // original, but a store must agree with itself: what it lists
+                // and holds it must not deny through its own filter
+                let mut cache_keys = live.router().scan("_cache:");
+                cache_keys.sort();
+                for k in cache_keys {
+                    if live.router().get(&k).is_ok() && !s.exists(&k) {
+                        d.insert(format!("K|{k}"), str_data(STORE_GET_FAILS, "exists() is false for a cache key that scan() lists and the router holds".into()));
+                    }
+                }
             }
             if self.uses_rel || self.uses_graph {
                 // fixed id ranges: what is probed must not depend on when the dump is taken
@@ -1050,6 +1064,10 @@ impl<'a> Trial<'a> {
         }
         match fmt {
             Fmt::Quant { .. } => TensorStore::load_snapshot_compressed(path).map(Live::Store).map_err(|e| e.to_string()),
+            _ if self.case.bloom_loader => {
+                self.ctx.probe("file_loaded_with_bloom_filter");
+                TensorStore::load_snapshot_with_bloom_filter(path, 1000, 0.01).map(Live::Store).map_err(|e| e.to_string())
+            },
             _ => TensorStore::load_snapshot(path).map(Live::Store).map_err(|e| e.to_string()),
         }
     }
@@ -1941,7 +1959,8 @@ impl Scenario for C07 {
             1 => 8,
             _ => 4,
         };
-        Case { cfg, observe, offsets, steps, mode }
+        let bloom_loader = cfg == 0 && rng.chance(1, 5);
+        Case { cfg, observe, offsets, steps, mode, bloom_loader }
     }
 
     fn run(&self, case: &Case, ctx: &Arc<RunCtx>) -> RunOut {
